@@ -28,13 +28,18 @@ META = {
     "gates": {
         "quick": {"evaluations": 20000, "notifying_assignments": 6000, "silent_assignments": 1500,
                   "rejected_assignments": 1500, "reads": 2000, "raising_handler_calls": 1500,
-                  "oldnew_checked": 15000},
+                  "oldnew_checked": 15000, "listeners_leaving_during_delivery": 1200,
+                  "listener_owners_dropped_during_delivery": 400,
+                  "listeners_joining_during_delivery": 400},
         "thorough": {"evaluations": 4000000, "notifying_assignments": 1500000,
                      "silent_assignments": 400000, "rejected_assignments": 400000, "reads": 500000,
                      "raising_handler_calls": 400000, "oldnew_checked": 4000000,
                      "unread_first_assignments": 100000, "quiet_sets_ok": 250000,
                      "quiet_sets_rejected": 50000, "layout:split": 250000,
-                     "other_trait_assignments": 700000},
+                     "other_trait_assignments": 700000,
+                     "listeners_leaving_during_delivery": 300000,
+                     "listener_owners_dropped_during_delivery": 100000,
+                     "listeners_joining_during_delivery": 100000},
     },
     "assumptions": [
         "value pools avoid objects whose == and != are mutually inconsistent (the statement's "
@@ -269,18 +274,93 @@ def run_history(ctx, h, legacy_errs, obs_errs):
     otcs = [lambda: rec("otc"), lambda new: rec("otc", M, new), lambda name, new: rec("otc", M, new),
             lambda obj, name, new: rec("otc", M, new), lambda obj, name, old, new: rec("otc", old, new)]
     f_otc = otcs[otc_ar]
-    o.on_trait_change(f_otc, "x")
-    o.on_trait_change(o.bound_handler, "x")
     ob1 = lambda e: rec("obs", e.old, e.new)
     ob2 = lambda e: rec("obs2", e.old, e.new)
-    o.observe(ob1, "x")
-    o.observe(ob2, "x")
+    regs = [lambda: o.on_trait_change(f_otc, "x"), lambda: o.on_trait_change(o.bound_handler, "x"),
+            lambda: o.observe(ob1, "x"), lambda: o.observe(ob2, "x")]
+    # further listeners that LEAVE (or join) the trait's notifier list while a notification is
+    # being delivered: one-shots removing themselves, listeners removing an earlier one, a
+    # bound-method listener whose owner dies because a running handler dropped the last
+    # reference, listeners registering another.  The six recorders above stay registered
+    # throughout, so each of them is still owed exactly one call per change; a listener that
+    # left is owed none on LATER assignments.
+    cur = {"step": -1}
+    extras = []
+
+    def mk_extra(i):
+        ek = rng.choice(["oneshot-otc", "oneshot-obs", "kill-prev", "drop-owner", "adder"])
+        st = {"kind": ek, "at": rng.randint(1, 3), "calls": 0, "gone_at": None, "late": 0}
+        extras.append(st)
+
+        def seen():
+            st["calls"] += 1
+            if st["gone_at"] is not None and cur["step"] > st["gone_at"]:
+                st["late"] += 1
+            return st["calls"] == st["at"]
+        if ek == "oneshot-otc":
+            def h():
+                if seen() and st["gone_at"] is None:
+                    o.on_trait_change(h, "x", remove=True)
+                    st["gone_at"] = cur["step"]
+                    ctx.count("listeners_leaving_during_delivery")
+            st["remove"] = lambda: o.on_trait_change(h, "x", remove=True)
+            return [lambda: o.on_trait_change(h, "x")]
+        if ek == "oneshot-obs":
+            def h(e):
+                if seen() and st["gone_at"] is None:
+                    o.observe(h, "x", remove=True)
+                    st["gone_at"] = cur["step"]
+                    ctx.count("listeners_leaving_during_delivery")
+            st["remove"] = lambda: o.observe(h, "x", remove=True)
+            return [lambda: o.observe(h, "x")]
+        if ek == "kill-prev":
+            def h():
+                if seen():
+                    for prev in extras[:i][::-1]:
+                        if prev["gone_at"] is None and prev.get("remove"):
+                            try:
+                                prev["remove"]()
+                            except Exception:
+                                continue
+                            prev["gone_at"] = cur["step"]
+                            ctx.count("listeners_leaving_during_delivery")
+                            break
+            return [lambda: o.on_trait_change(h, "x")]
+        if ek == "drop-owner":
+            class Owner:
+                def handle(self):
+                    seen()
+            refs = [Owner()]
+            dst = {"calls": 0}
+
+            def dropper():
+                dst["calls"] += 1
+                if dst["calls"] == st["at"] and refs:
+                    del refs[:]
+                    st["gone_at"] = cur["step"]
+                    ctx.count("listeners_leaving_during_delivery")
+                    ctx.count("listener_owners_dropped_during_delivery")
+            two = [lambda: o.on_trait_change(refs[0].handle, "x"), lambda: o.on_trait_change(dropper, "x")]
+            return two if rng.random() < 0.6 else two[::-1]
+
+        def h():
+            if seen():
+                o.on_trait_change(lambda: None, "x")
+                ctx.count("listeners_joining_during_delivery")
+        return [lambda: o.on_trait_change(h, "x")]
+    for i in range(rng.choice([0, 0, 1, 2, 3])):
+        for r in mk_extra(i):
+            regs.insert(rng.randint(0, len(regs)), r)
+    for r in regs:
+        r()
+    if extras:
+        ctx.count("histories_with_leaving_or_joining_listeners")
     P = pool(kind)
     x_shared = X()
     trace = []
     cfg = {"kind": kind, "mode": mode.name, "static_arity": st_ar, "otc_arity": otc_ar,
            "raiser": raiser, "exc": exc.__name__, "suffix": sfx, "layout": cfg_layout,
-           "ymode": ymode.name}
+           "ymode": ymode.name, "extra_listeners": [(e["kind"], e["at"]) for e in extras]}
     ctx.count("layout:" + ("flat" if cfg_layout == "flat" else "split"))
     ypool = [1, 1, 1.0, "a", None, None, x_shared, x_shared, [1], [1]]
 
@@ -294,6 +374,12 @@ def run_history(ctx, h, legacy_errs, obs_errs):
     # knows, the first assignment may come before any read
     unread = kind in KNOWN_DEFAULT and rng.random() < 0.6
     for step in range(12):
+        cur["step"] = step
+        for st in extras:
+            if st["late"]:
+                return viol("listener-called-after-it-left/" + st["kind"],
+                            "a %s listener that left the notifier list at step %d was called again on a "
+                            "later assignment" % (st["kind"], st["gone_at"]))
         del LOG[:], legacy_errs[:], obs_errs[:]
         opk = rng.choice(["set", "set", "set", "read", "set", "setq", "sety"])
         if step == 0 and rng.random() < 0.5:
